@@ -177,6 +177,11 @@ func c14Expr(t *rapid.T) (ast.Expr, string) {
 		{"reverse", ast.Call("reverse", ast.A(n))},
 		{"flatten-filter", ast.F("nn").With(ast.Step{Kind: ast.SFlatten}, ast.Step{Kind: ast.SFilter, Cond: ast.Bin(cmp, ast.Cur(), y)})},
 		{"or-default", ast.Bin("||", ast.F("z"), x)},
+		// % and // on operands with many significant bits (exact in binary64 and
+		// in decimal128): the remainder is exact in every carrier, a formula such
+		// as x - y*trunc(x/y) on floats is not
+		{"mod-many-bits", ast.Bin("%", x, y)},
+		{"mod-many-bits", &ast.Chain{Head: ast.Head{Kind: ast.HMultiList, Items: []ast.Expr{ast.Bin("%", x, y), ast.Bin("//", x, y), ast.Bin("==", ast.Bin("%", x, y), ast.Bin("%", x, y))}}}},
 		// a number where a string is expected or compared: sx is a string that
 		// contains the canonical text of x
 		{"contains-string", ast.Call("contains", ast.A(ast.F("sx")), ast.A(x))},
@@ -227,8 +232,17 @@ func TestC14_Carriers(t *testing.T) {
 		o := jv.VObj([]jv.Member{{K: "a", V: num()}, {K: "b", V: jv.VArr(nums())}})
 		zero := gen.Pick(t, "z", []jv.Val{jv.VNull(), jv.VInt(0), jv.VBool(false)})
 		xv := num()
+		yv := num()
+		if name == "mod-many-bits" {
+			big2 := func(label string, pal []string) jv.Val {
+				r, _ := new(big.Rat).SetString(gen.Pick(t, label, pal))
+				return jv.VRat(r)
+			}
+			xv = big2("manybits-x", []string{"1073741824", "1099511627777", "2147483647", "1543209.75", "4294967296.5", "9007199254740991", "281474976710656.25", "1000000007"})
+			yv = big2("manybits-y", []string{"1.000000000931322574615478515625", "1.00000095367431640625", "3.0000000298023223876953125", "0.753906253725290298461914062500", "7.00048828125", "1.5", "1048576.0009765625", "0.0000152587890625"})
+		}
 		xt := jv.RatText(xv.R)
-		doc := jv.VObj([]jv.Member{{K: "x", V: xv}, {K: "sx", V: jv.VStr("id-" + xt + "-z")}, {K: "tx", V: jv.VStr(xt)}, {K: "y", V: num()}, {K: "z", V: zero}, {K: "n", V: jv.VArr(n)}, {K: "m", V: jv.VArr(n)}, {K: "nn", V: jv.VArr([]jv.Val{jv.VArr(n), num(), jv.VArr(nums())})},
+		doc := jv.VObj([]jv.Member{{K: "x", V: xv}, {K: "sx", V: jv.VStr("id-" + xt + "-z")}, {K: "tx", V: jv.VStr(xt)}, {K: "y", V: yv}, {K: "z", V: zero}, {K: "n", V: jv.VArr(n)}, {K: "m", V: jv.VArr(n)}, {K: "nn", V: jv.VArr([]jv.Val{jv.VArr(n), num(), jv.VArr(nums())})},
 			{K: "r", V: jv.VArr(recs)}, {K: "o", V: o}, {K: "p", V: o}, {K: "s", V: jv.VStr("a,b,a,,a")}})
 		text := ast.RenderWith(e, gen.Chooser{T: t})
 		c.Case()
